@@ -886,6 +886,32 @@ func runSQL(cfg *config) {
 			sqlTextCase(cfg, id, render(rr, g.w, false), "(select (list (dc * -)) (from (table 74 none)) (where "+c+") (group ) (order ) (limit 0 0) (offset 0 0))", "boolean")
 		}
 	}
+	// statements slid across the scanner's read-buffer boundaries (1024, 2048 bytes): every word of the
+	// statement - keywords, identifiers that begin with a keyword, literals - lies across a boundary in
+	// one of the renderings; the parse must be the same statement each time
+	for i := 0; i < 3*cfg.scale; i++ {
+		rr := r.Fork()
+		g := &gen{r: rr}
+		expect := g.stmt()
+		if len(g.w) < 6 {
+			continue
+		}
+		words := strings.Join(g.w[1:], " ")
+		span := len(words) + 2
+		if span > 220 {
+			span = 220
+		}
+		for _, boundary := range []int{1024, 2048} {
+			for shift := 0; shift < span; shift++ {
+				pad := boundary - len(g.w[0]) - 1 - shift
+				if pad < 1 {
+					continue
+				}
+				id++
+				sqlTextCase(cfg, id, g.w[0]+strings.Repeat(" ", pad)+words, expect, "buffer-boundary")
+			}
+		}
+	}
 	// random bytes, invalid UTF-8, long inputs crossing the 1024-byte buffer
 	for i := 0; i < 300*cfg.scale; i++ {
 		rr := r.Fork()
